@@ -28,6 +28,9 @@
                                    `no_underscore_getattr` but not this theorem.
     * `ghost_log_faithful`         on `spy h`, the evaluator's `reads` log lists exactly the names the host was asked
                                    for, in order (the log the other theorems speak about is not a fiction).
+    * `spy_erasure`, `host_calls_are_the_logged_reads`
+                                   the wrapper is invisible (same result, same host state, same log), hence for the run
+                                   on `h` itself: logged names = names the host's `getattr` receives, all public.
     * `reflective_member_refused`, `safe_method_intercepted`
                                    `get_member` never calls `getattr` on a `_REFLECTIVE_TYPES` object, and never
                                    hands out the real `str.format` / `str.format_map`;
@@ -46,8 +49,8 @@
   WHAT THE THEOREMS DO NOT SAY.  They hold at the evaluator's call sites (`get_member`, `get_value`) for every host.
   Whether private state crosses the boundary INSIDE a host operation (`call`, `getitem`, …) is a property of the host;
   it is proved only for the concrete host of the stream (`concrete_host_no_underscore`) and otherwise observed by the
-  stream's monitors on the real code.  That `eval (spy h)` and `eval h` return the same results is not proved (the
-  evaluator is parametric in the host; `spy h` differs from `h` only in the recorded names).
+  stream's monitors on the real code.  (`spy_erasure`: `eval (spy h)` and `eval h` return the same result, host state
+  and log, so the statements on the recording wrapper are statements about the run on `h` itself.)
 
   HOST CONTRACT (assumption, validated by the tripwire monitor of stream `expr`, not provable inside the model):
   the whole-system reading of C19 — "never reads an underscore attribute from any object it can reach" —
@@ -191,6 +194,28 @@ theorem ghost_log_faithful (h : Host σ Obj) (locals globals : Env Obj) (tokens 
   simp only [Faithful] at hf
   simp only [attrReads, List.map_map]
   exact hf
+
+/-- ERASURE: the recording wrapper is invisible — `eval` over `spy h` returns the same result, leaves the same host
+    state and writes the same evaluator log as `eval` over `h`. -/
+theorem spy_erasure (h : Host σ Obj) (locals globals : Env Obj) (tokens : List Tok) (s0 : σ) :
+    (eval (spy h) locals globals tokens (s0, [])).1 = (eval h locals globals tokens s0).1 ∧
+    (eval (spy h) locals globals tokens (s0, [])).2.hs.1 = (eval h locals globals tokens s0).2.hs ∧
+    attrReads (eval (spy h) locals globals tokens (s0, [])) = attrReads (eval h locals globals tokens s0) := by
+  have hs := sim_eval (h := h) (locals := locals) (globals := globals) tokens s0 []
+  obtain ⟨h1, h2, h3, _⟩ := hs
+  refine ⟨h1.symm, h2, ?_⟩
+  simp only [attrReads, h3]
+
+/-- Hence, for EVERY host and every run of the evaluator itself (not of a wrapper): the names of the evaluator's
+    attribute reads are exactly the names that the host's `getattr` is asked for when the same run is observed
+    through the recording wrapper, and none of them starts with an underscore. -/
+theorem host_calls_are_the_logged_reads (h : Host σ Obj) (locals globals : Env Obj) (tokens : List Tok) (s0 : σ) :
+    (attrReads (eval h locals globals tokens s0)).map Prod.snd =
+      (eval (spy h) locals globals tokens (s0, [])).2.hs.2 ∧
+    ∀ n ∈ (eval (spy h) locals globals tokens (s0, [])).2.hs.2, ¬ (n.startsWith "_" = true) := by
+  refine ⟨?_, host_never_asked_underscore h locals globals tokens s0⟩
+  rw [← (spy_erasure h locals globals tokens s0).2.2]
+  exact ghost_log_faithful h locals globals tokens s0
 
 /-! ### obligations on the generated operator table -/
 
